@@ -152,11 +152,15 @@ def sliceIdx (n : Nat) (i j : Option Int) (st : Int) : Int × Nat :=
 
 /-! ## store -/
 
+/-- a NumPy array / `array.array` register: which cells of which block it shows.  `dt` is the element type of the
+    buffer object: 0 = double (the only type a `NumPyVector<double>` or FieldVector shares memory with), 1 … 7 = int64,
+    int32, int16, int8, uint8, uint16, float32, 8 = read-only doubles. -/
 structure View where
   blk : Nat
   off : Int
   step : Int
   len : Nat
+  dt : Nat := 0
   deriving Repr, DecidableEq
 
 inductive Slot where
@@ -227,6 +231,8 @@ inductive Eff where
   | writeB (b : Nat) (v : List Int)            -- the cells `b` of a vector are overwritten with `v`
   | bindA (a : Nat) (v : View)                 -- array register `a` becomes a view of existing cells
   | newA (a : Nat) (v : List Int)              -- array register `a` becomes a fresh array holding `v`
+  | newAV (a : Nat) (mem : List Int) (off step : Int) (len dt : Nat)
+                                               -- … a fresh buffer object with memory `mem`, shown through a strided view
   | writeCell (v : View) (p : Nat) (k : Int)   -- entry `p` of a view is written
   | writeView (v : View) (vals : List Int)     -- all entries of a view are written
   deriving Repr
@@ -238,6 +244,9 @@ def Eff.apply (s : State) : Eff → State × String
   | .writeB b v => (s.write b v, showInts v)
   | .bindA a v => (s.bindA a v, showInts (s.viewVals v))
   | .newA a v => ((s.alloc v).1.bindA a (fullView (s.alloc v).2 v.length), showInts v)
+  | .newAV a mem off step len dt =>
+    ((s.alloc mem).1.bindA a { blk := (s.alloc mem).2, off := off, step := step, len := len, dt := dt },
+     showInts ((s.alloc mem).1.viewVals { blk := (s.alloc mem).2, off := off, step := step, len := len, dt := dt }))
   | .writeCell v p k =>
     ((s.write v.blk ((s.read v.blk).set (v.pos p) k)),
      showInts ((s.write v.blk ((s.read v.blk).set (v.pos p) k)).viewVals v))
@@ -249,8 +258,32 @@ def Eff.apply (s : State) : Eff → State × String
     strided / reversed NumPy view, `array.array`); `badbuf`: a buffer the constructor must reject (wrong item type,
     two-dimensional) -/
 inductive CtorHow where
-  | list | tuple | args | buf (s : Int) | zero | fac | ilist | ituple | iargs | badbuf
+  | list | tuple | args | buf (s : Int) | zero | fac | ilist | ituple | iargs
+  | badbuf (dt : Nat)      -- a buffer the constructor must reject: element type `dt` ≠ double (or two-dimensional: `dt = 0`)
+  | nakind                 -- a combination of element type and layout that does not exist (strided `array.array`)
   deriving DecidableEq, Repr
+
+/-- memory layouts of the buffer objects the harness builds: contiguous, every 2nd entry, a column of a 2-d array
+    (every 3rd entry), reversed, reversed every 2nd entry -/
+inductive Lay where
+  | c | s2 | col | r | r2
+  deriving DecidableEq, Repr
+
+def Lay.stride : Lay → Int
+  | .c => 1
+  | .s2 => 2
+  | .col => 3
+  | .r => -1
+  | .r2 => -2
+
+/-- the numbers an element type can hold (beyond the global bound on exactly representable entries) -/
+def dtOk (dt : Nat) (e : Int) : Bool :=
+  match dt with
+  | 3 => decide (-32768 ≤ e ∧ e ≤ 32767)
+  | 4 => decide (-128 ≤ e ∧ e ≤ 127)
+  | 5 => decide (0 ≤ e ∧ e ≤ 255)
+  | 6 => decide (0 ≤ e ∧ e ≤ 65535)
+  | _ => true
 
 /-- Python kind of an operand standing for a vector -/
 inductive OKind where
@@ -289,6 +322,7 @@ inductive VOp where
   | aget (a : Nat) (i : Int) | aset (a : Nat) (i k : Int) | alist (a : Nat)
   | nscale (a : Nat) (k : Int) | nset (a : Nat) (i k : Int) | nget (a : Nat) (i : Int) | nnorms (a : Nat)
   | naxpy (a : Nat) (k : Int) (b : Nat) | nadd (a b : Nat) | nnew (a b : Nat) (k : Int) | nint (a : Nat) (k : Int) | nrun (a : Nat)
+  | ndt (a b : Nat) (dt : Nat) (lay : Lay) (special : Bool) | nvscale (x : Nat) (k : Int)
   deriving Repr
 
 inductive TOp where
@@ -368,22 +402,39 @@ def effNew (x : Nat) (R : List Int) : Eff := if !okVals R then effSkip else .new
 /-- result of an in-place operation on the cells `b` -/
 def effWrite (b : Nat) (R : List Int) : Eff := if !okVals R then effSkip else .writeB b R
 
+/-- a writing operation of a `NumPyVector<double>` over the buffer object shown by `v` that leaves the numbers `R` in the
+    vector: a buffer of doubles is shared (the cells are written); of a buffer of another element type the vector holds
+    a converted copy (the write is seen through the vector — its one norm — but never reaches the buffer); a read-only
+    buffer is rejected -/
+def nvWrite (s : State) (v : View) (R : List Int) : Eff :=
+  if v.dt == 8 then .obs Err.value.show
+  else if v.dt != 0 then .obs ("w:" ++ toString (oneNorm R) ++ ":" ++ showInts (s.viewVals v))
+  else .writeView v R
+
+/-- the same for `x[p] = k` -/
+def nvWriteCell (s : State) (v : View) (p : Nat) (k : Int) : Eff :=
+  if v.dt == 8 then .obs Err.value.show
+  else if v.dt != 0 then .obs ("w:" ++ toString (oneNorm ((s.viewVals v).set p k)) ++ ":" ++ showInts (s.viewVals v))
+  else .writeCell v p k
+
 /-- the effect of one bound vector operation (`kd` is `fv n` or `dyn`) -/
 def vecEff (kd : Kind) (s : State) : VOp → Eff
   | .new x how L =>
     match kd, how with
+    | _, .nakind => effNa
     | .dyn, .args | .dyn, .iargs | .dyn, .fac => effNa
     | .dyn, how =>
       if !okVals L then effSkip else
       match how with
       | .list | .ilist => .newX x (dynConstructLoop L)
       | .zero => .newX x []
+      | .badbuf dt => if !L.all (dtOk dt) then effSkip else .obs Err.type.show
       | _ => .obs Err.type.show
     | .fv n, how =>
       if !okVals L then effSkip
       else if how == .fac && L.length != n then effSkip
       else match how with
-        | .badbuf => .obs Err.value.show
+        | .badbuf dt => if !L.all (dtOk dt) then effSkip else .obs Err.value.show
         | .buf st => .newX x (constructBuf n (stridedMem st L).1 (stridedMem st L).2 st L.length)
         | _ => .newX x (constructLoop n L)
     | _, _ => effNa
@@ -622,7 +673,9 @@ def vecEff (kd : Kind) (s : State) : VOp → Eff
     match s.arrs a with
     | none => effUnbound
     | some v =>
-      if !okInt k || !okIdx i then effSkip else
+      if !okInt k || !okIdx i || !dtOk v.dt k then effSkip
+      else if v.dt == 8 then .obs Err.value.show       -- assignment destination is read-only
+      else
       match normIndex v.len i with
       | none => .obs Err.index.show
       | some p => .writeCell v p k
@@ -635,31 +688,35 @@ def vecEff (kd : Kind) (s : State) : VOp → Eff
     | none => effUnbound
     | some v =>
       let R := vscale k (s.viewVals v)
-      if !okInt k || !okVals R then effSkip else .writeView v R
+      if !okInt k || !okVals R then effSkip else nvWrite s v R
   | .nset a i k =>
     match s.arrs a with
     | none => effUnbound
     | some v =>
-      if !okInt k || i < 0 || i ≥ (v.len : Int) then effSkip else .writeCell v i.toNat k
+      if !okInt k || i < 0 || i ≥ (v.len : Int) then effSkip else nvWriteCell s v i.toNat k
   | .nget a i =>
     match s.arrs a with
     | none => effUnbound
     | some v =>
       if i < 0 || i ≥ (v.len : Int) then effSkip
+      else if v.dt == 8 then .obs Err.value.show
       else .obs (toString ((s.read v.blk).getD (v.pos i.toNat) 0))
   | .nnorms a =>
     match s.arrs a with
     | none => effUnbound
     | some v =>
       let A := s.viewVals v
-      .obs (showInts [(A.length : Int), oneNorm A, infNorm A, twoNorm2 A])
+      if v.dt == 8 then .obs Err.value.show
+      else .obs (showInts [(A.length : Int), oneNorm A, infNorm A, twoNorm2 A])
   | .naxpy a k b =>
     match s.arrs a, s.arrs b with
     | some va, some vb =>
       if va.len != vb.len || !okInt k then effSkip
       else if va.blk == vb.blk && !sameSeq va vb then effSkip else
       let R := vadd (s.viewVals va) (vscale k (s.viewVals vb))
-      if !okVals R then effSkip else .writeView va R
+      if !okVals R then effSkip
+      else if vb.dt == 8 then .obs Err.value.show
+      else nvWrite s va R
     | _, _ => effUnbound
   | .nadd a b =>
     match s.arrs a, s.arrs b with
@@ -667,14 +724,18 @@ def vecEff (kd : Kind) (s : State) : VOp → Eff
       if va.len != vb.len then effSkip
       else if va.blk == vb.blk && !sameSeq va vb then effSkip else
       let R := vadd (s.viewVals va) (s.viewVals vb)
-      if !okVals R then effSkip else .writeView va R
+      if !okVals R then effSkip
+      else if vb.dt == 8 then .obs Err.value.show
+      else nvWrite s va R
     | _, _ => effUnbound
   | .nnew a b k =>
     match s.arrs b with
     | none => effUnbound
     | some vb =>
       let R := vscale k (s.viewVals vb)
-      if !okInt k || !okVals R then effSkip else .newA a R
+      if !okInt k || !okVals R then effSkip
+      else if vb.dt == 8 then .obs Err.value.show
+      else .newA a R
   | .nint a k =>
     -- NumPyVector<double> over an int64 copy of the array: same numbers; `x *= k` stays in the converted copy
     match s.arrs a with
@@ -690,7 +751,25 @@ def vecEff (kd : Kind) (s : State) : VOp → Eff
     | some v =>
       let A := s.viewVals v
       let R := (List.range A.length).map fun j => A.getD j 0 + (j : Int)
-      if !okVals R then effSkip else .writeView v R
+      if !okVals R then effSkip else nvWrite s v R
+  | .ndt a b dt lay special =>
+    -- a fresh buffer object of element type `dt` and layout `lay` holding the numbers of array register `b`
+    if special && lay != .c then effNa else
+    match s.arrs b with
+    | none => effUnbound
+    | some vb =>
+      let A := s.viewVals vb
+      if !A.all (dtOk dt) then effSkip
+      else .newAV a (stridedMem lay.stride A).1 (stridedMem lay.stride A).2 lay.stride A.length dt
+  | .nvscale x k =>
+    -- NumPyVector<double> directly over the vector object: a FieldVector is a buffer of doubles (shared), a DynamicVector none
+    match s.xs x with
+    | none => effUnbound
+    | some bx =>
+      let R := vscale k (s.read bx)
+      if !okInt k || !okVals R then effSkip
+      else if !kd.isFv then .obs Err.type.show
+      else .writeB bx R
 
 /-! ## tuple vectors -/
 
